@@ -125,7 +125,7 @@ def score_table(final_state, data_rows, W):
 
 def run(ctx):
     from fast_ticc import data_preparation as dp
-    ctx.proof_layer(allowed_axioms=R_AX, coq_deps=["Corr/RunMainLoop", "Corr/RunViterbi"], gen=["main_loop", "la_predict", "vh_emit", "vh_add", "vh_clear"])
+    ctx.proof_layer(allowed_axioms=R_AX, coq_deps=["Corr/RunMainLoop", "Corr/RunViterbi"], gen=["main_loop", "la_predict", "vh_emit", "vh_add", "vh_clear", "main_loop_full"])
     core.note_drift(ctx, ANCHORS)
     cov = core.LineCoverage()
     with cov:
